@@ -26,7 +26,7 @@ SEQ_PROFILE = Profile(write_exc=("SerialException",), read_exc=("SerialException
 
 OK_QUERIES = ["QB", "QP", "QS", "QC", "QL", "QT"]
 NO_OK_QUERIES = ["V", "v", "QM", "QG", "PI,E,0", "I", "A", "MR"]
-COMMANDS = ["EM,1,1", "SP,1,100", "SL,7", "RB"]
+COMMANDS = ["EM,1,1", "SP,1,100", "SL,7", "RB", "ST,{bench}", "ST,{0}%s"]   # free text in a name
 
 ALPHABET = [("query", q + "\r") for q in OK_QUERIES + NO_OK_QUERIES] + \
            [("command", c + "\r") for c in COMMANDS]
